@@ -291,6 +291,30 @@ fn c04_execute(r: &mut Runner) {
             }
         }
     }
+    // a second coin next to the payment (sdk.Coins arrive sorted by denom: "factory/.." sorts before the
+    // "ibc/.." staked asset, "uosmo" after it): whatever the contract decides, LST is minted for the staked
+    // asset paid and for nothing else
+    for (name, s) in [("rate1", seed_two_stakes(&k)), ("rate_up", seed_rate_up(&k)), ("empty", seed_resumed(&k))] {
+        for extra in ["factory/osmo1aaaaaaaaaaaaaaaaaaaaaaaaaaaaaaaaaaaaaa/x", "uosmo", "ibc/0000000000000000000000000000000000000000000000000000000000000000"] {
+            for (amt, big) in [(100u128, 1_000_000_000u128), (100, 1), (37, 36)] {
+                let mut t = s.clone();
+                t.w.credit(&u(1), extra, big);
+                let pre = t.clone();
+                let a = exec(&u(1), ExecuteMsg::LiquidStake { mint_to: None, transfer_to_native_chain: None, expected_mint_amount: None }, vec![(sd(), amt), (extra.to_string(), big)]);
+                let ap = t.apply(&a);
+                evals += 1;
+                let case = json!({"seed": name, "amount": amt.to_string(), "extra_coin": [extra, big.to_string()]});
+                for v in step_monitors(&["C04"], &pre, &a, &ap, &t) {
+                    viols.push((v, case.clone()));
+                }
+                if ap.out.ok {
+                    acc += 1;
+                } else {
+                    rej += 1;
+                }
+            }
+        }
+    }
     r.grid("c04-execute-min-zero-expected", evals, 2, acc, rej, samples, viols);
     r.require(acc > 10 && rej > 10, "C04 execute grid must contain accepted and refused stakes");
 }
@@ -470,6 +494,10 @@ fn sender_menu() -> Vec<String> {
         v.push(bech::addr(hrp, "s-one", 32));
     }
     v.push(bech::addr("celestia", "s-one", 20).to_uppercase());
+    // very long but checksum-valid addresses: "<channel>/<sender>" beyond 256 and beyond 1024 bytes
+    v.push(bech::addr("celestia", "s-long", 200));
+    v.push(bech::addr("celestia", "s-long-b", 200));
+    v.push(bech::addr("celestia", "s-huge", 700));
     v.push("celestia1abc/def".into());
     v.push("/".into());
     v.push("a/b/c".into());
@@ -625,7 +653,8 @@ fn c09_execute_grid(r: &mut Runner) {
     let addr_spellings = |label: &str| -> Vec<String> {
         let a20 = bech::addr(&k.native_prefix, label, 20);
         let a32 = bech::addr(&k.native_prefix, label, 32);
-        vec![a20.clone(), a20.to_uppercase(), a32.clone(), a32.to_uppercase()]
+        // 200-byte payloads: the hashed string "<channel>/<address>" is longer than 256 bytes
+        vec![a20.clone(), a20.to_uppercase(), a32.clone(), a32.to_uppercase(), bech::addr(&k.native_prefix, label, 200), bech::addr(&k.native_prefix, &format!("{label}-twin"), 200)]
     };
     let channels = ["channel-0", "channel-7", "channel-007", "channel-42", "channel-18446744073709551615"];
     let mut n = 0u64;
